@@ -1,5 +1,201 @@
 package main
 
-import "verifharness/kit"
+import (
+	"context"
+	"fmt"
+	"sort"
+	"unique"
 
-func runT(c *kit.Ctx, r *kit.Rand, idx int) {}
+	"k8s.io/apimachinery/pkg/util/sets"
+
+	"sigs.k8s.io/karpenter/pkg/cloudprovider"
+	"sigs.k8s.io/karpenter/pkg/scheduling"
+	dra "sigs.k8s.io/karpenter/pkg/scheduling/dynamicresources"
+
+	"verifharness/kit"
+)
+
+// ------------------------------------------------------------------ part T: the DRA allocation tracker (exclusive devices)
+
+type tNC struct{ id string }
+
+func (n tNC) ID() dra.NodeClaimID                                    { return unique.Make(n.id) }
+func (n tNC) NodeName() string                                       { return "" }
+func (n tNC) NodePoolID() dra.NodePoolID                             { return unique.Make("pool") }
+func (n tNC) Requirements() scheduling.Requirements                  { return scheduling.NewRequirements() }
+func (n tNC) InstanceTypes() []dra.InstanceTypeID                    { return nil }
+func (n tNC) ResourceSlices() map[dra.InstanceTypeID][]dra.ResourceSlice { return nil }
+
+type tcase struct {
+	Kind string   `json:"kind"`
+	Pre  []string `json:"preallocated"`
+	Ops  []string `json:"ops"`
+	Obs  []string `json:"obs"`
+}
+
+func cpDev(name string) cloudprovider.DeviceID {
+	return cloudprovider.DeviceID{Driver: unique.Make("drv"), Pool: unique.Make("pool"), Device: unique.Make(name)}
+}
+
+func gDev(name string, tmpl bool) string { return fmt.Sprintf("(mkDev %s %s)", kit.GStr(name), kit.GBool(tmpl)) }
+
+func runT(c *kit.Ctx, r *kit.Rand, idx int) {
+	devs := []string{"d1", "d2", "d3", "d4"}
+	ncs := []string{"n1", "n2", "n3"}
+	its := []string{"a", "b", "c"}
+	var pre []string
+	excl := sets.New[cloudprovider.DeviceID]()
+	for _, d := range devs {
+		if r.Chance(1, 6) {
+			pre = append(pre, d)
+			excl.Insert(cpDev(d))
+		}
+	}
+	at := dra.NewAllocationTracker(dra.AllocatedDeviceState{ExclusiveDevices: excl})
+	ctx := context.Background()
+	isAlloc := func(d string, tmpl bool, n, it string) bool {
+		return at.IsAllocated(dra.DeviceID{DeviceID: cpDev(d), Template: tmpl}, tNC{n}, unique.Make(it))
+	}
+	// observation after every op: IsAllocated over the whole universe, and the owners of every cluster device
+	observe := func() (string, string) {
+		var bits []string
+		for _, d := range devs {
+			for _, tmpl := range []bool{false, true} {
+				for _, n := range ncs {
+					for _, it := range its {
+						bits = append(bits, kit.GBool(isAlloc(d, tmpl, n, it)))
+					}
+				}
+			}
+		}
+		owners := map[string]map[string]bool{}
+		for n, byIT := range at.InflightClusterAllocationsByNodeClaim {
+			for _, ds := range byIT {
+				for d := range ds {
+					name := d.Device.Value()
+					if owners[name] == nil {
+						owners[name] = map[string]bool{}
+					}
+					owners[name][n.Value()] = true
+				}
+			}
+		}
+		var gown []string
+		for _, d := range kit.SortedKeys(owners) {
+			var l []string
+			for n := range owners[d] {
+				l = append(l, n)
+			}
+			sort.Strings(l)
+			if excl.Has(cpDev(d)) {
+				l = append(l, "<preallocated>")
+			}
+			gown = append(gown, kit.GPair(kit.GStr(d), kit.GStrs(l)))
+		}
+		return kit.GList(bits), kit.GList(gown)
+	}
+	var gops, gobs, jops, jobs []string
+	emit := func(gop, jop, out string) {
+		bits, own := observe()
+		gops = append(gops, "("+gop+")")
+		jops = append(jops, jop)
+		gobs = append(gobs, fmt.Sprintf("(%s, %s, %s)", out, bits, own))
+		jobs = append(jobs, out)
+	}
+	nOps := r.Range(3, 12)
+	panicked := false
+	for i := 0; i < nOps && !panicked; i++ {
+		n := kit.Pick(r, ncs)
+		switch k := r.Intn(100); {
+		case k < 55: // commit; guarded like the allocator (only devices IsAllocated reports free) 5 times out of 6
+			guarded := !r.Chance(1, 6)
+			byIT := map[dra.InstanceTypeID][]dra.DeviceID{}
+			var gl, jl []string
+			for _, it := range its {
+				if !r.Chance(1, 2) {
+					continue
+				}
+				var ds []dra.DeviceID
+				var gds []string
+				seen := map[string]bool{}
+				for j, m := 0, r.Range(1, 3); j < m; j++ {
+					d, tmpl := kit.Pick(r, devs), r.Chance(1, 4)
+					key := fmt.Sprint(d, tmpl)
+					if guarded && (seen[key] || isAlloc(d, tmpl, n, it)) {
+						c.Count("T:commit:guard-skipped-allocated-device")
+						continue
+					}
+					seen[key] = true
+					ds = append(ds, dra.DeviceID{DeviceID: cpDev(d), Template: tmpl})
+					gds = append(gds, gDev(d, tmpl))
+				}
+				if len(ds) == 0 {
+					continue
+				}
+				byIT[unique.Make(it)] = ds
+				gl = append(gl, kit.GPair(kit.GStr(it), kit.GList(gds)))
+				jl = append(jl, it+":"+fmt.Sprint(gds))
+			}
+			p, _ := kit.Recover(func() { dra.VerifC17Commit(at, unique.Make(n), byIT) })
+			if p {
+				panicked = true
+				c.Count("T:commit:panic-already-allocated")
+				// the map iteration order decides how far Commit got: state after a panic is not compared
+				gops = append(gops, fmt.Sprintf("(DCommit %s %s)", kit.GStr(n), kit.GList(gl)))
+				jops = append(jops, fmt.Sprint("commit ", n, jl))
+				gobs = append(gobs, "(DPanic, [], [])")
+				jobs = append(jobs, "DPanic")
+				break
+			}
+			if guarded {
+				c.Count("T:commit:guarded")
+			} else {
+				c.Count("T:commit:unguarded-no-panic")
+			}
+			if len(byIT) > 1 {
+				c.Count("T:commit:device-superposed-over-instance-types")
+			}
+			emit(fmt.Sprintf("DCommit %s %s", kit.GStr(n), kit.GList(gl)), fmt.Sprint("commit ", n, jl), "DUnit")
+		case k < 85:
+			var rel []string
+			for _, it := range its {
+				if r.Chance(1, 2) {
+					rel = append(rel, it)
+				}
+			}
+			ids := make([]dra.InstanceTypeID, len(rel))
+			for i, it := range rel {
+				ids[i] = unique.Make(it)
+			}
+			held := 0
+			for _, it := range ids {
+				held += len(at.InflightClusterAllocationsByNodeClaim[unique.Make(n)][it])
+			}
+			p, _ := kit.Recover(func() { at.ReleaseInstanceTypes(ctx, unique.Make(n), ids...) })
+			if p {
+				panicked = true
+				c.Count("T:release:panic")
+				gops = append(gops, fmt.Sprintf("(DRelease %s %s)", kit.GStr(n), kit.GStrs(rel)))
+				jops = append(jops, fmt.Sprint("release ", n, rel))
+				gobs = append(gobs, "(DPanic, [], [])")
+				jobs = append(jobs, "DPanic")
+				break
+			}
+			if held > 0 {
+				c.Count("T:release:freed-devices")
+			} else {
+				c.Count("T:release:nothing-held")
+			}
+			emit(fmt.Sprintf("DRelease %s %s", kit.GStr(n), kit.GStrs(rel)), fmt.Sprint("release ", n, rel), "DUnit")
+		default:
+			d, tmpl, it := kit.Pick(r, devs), r.Chance(1, 4), kit.Pick(r, its)
+			b := isAlloc(d, tmpl, n, it)
+			emit(fmt.Sprintf("DIsAlloc %s %s %s", gDev(d, tmpl), kit.GStr(n), kit.GStr(it)), fmt.Sprint("isallocated ", d, tmpl, n, it), "DBool "+kit.GBool(b))
+		}
+	}
+	key := ""
+	if len(gops) >= 4 {
+		key = fmt.Sprint("T:", pre, jops)
+	}
+	c.AddCase(fmt.Sprintf("CaseT %s %s %s", kit.GStrs(pre), kit.GList(gops), kit.GList(gobs)), tcase{"dra-tracker", pre, jops, jobs}, key)
+}
